@@ -189,7 +189,7 @@ func TestWatchScenarios(t *testing.T) {
 				w.Write(Ev{"e": "crash", "msg": "the scenario does not finish: NewConn (or a later call) spins without blocking - it neither returns nor lets time pass"})
 				w.Write(Ev{"e": "end"})
 				w.Close()
-				os.Exit(0)
+				exitNow()
 			}
 		}()
 		evs, crash := runWatchScenario(t, sc, hello)
